@@ -3,6 +3,8 @@
 //   global gen gp SEED COUNT LEVEL      LEVEL 0 = quick (small circuits, efforts 1-3), 1 = thorough (larger, efforts 1-9)
 //   global gen spread SEED COUNT        dyadic spreading cases (every float operation of spreadCells is exact)
 //   global gen grid SEED COUNT          margin clipping + bin limits only (no placement run)
+//   global gen spreadf SEED COUNT       NON-dyadic spreading cases ("SF", same payload as "SP"): the results are printed as
+//                                       raw IEEE-754 bit patterns and compared bit for bit with the Flocq model (coq/SpreadFloat.v)
 //   global run < cases
 // case lines
 //   "GP <rows> <cells> <nets> effort seed netModel costModel tolExp approx10 cutoff10 line lineOv diag diagOv sq sqOv uni1d nbSteps binSize10 blend100 maxSteps"
@@ -12,6 +14,8 @@
 #include <algorithm>
 #include <array>
 #include <cmath>
+#include <cstdint>
+#include <cstring>
 #include <functional>
 #include <future>
 #include <optional>
@@ -176,6 +180,52 @@ static void genSP(SplitMix &g, long long count) {
   }
 }
 
+
+// non-dyadic spreading cases for the binary32 model (coq/SpreadFloat.v): limits of any magnitude up to 2^22, totals that are
+// not powers of two (1/total, the increments, the running sum and the convex combination all round), a few demands above
+// 2^24 (the int -> float conversion rounds).  Same payload as "SP", tag "SF".
+static void genSF(SplitMix &g, long long count) {
+  for (long long it = 0; it < count; ++it) {
+    int nbx = (int)g.uni(1, 3), nby = (int)g.uni(1, 2);
+    auto mkLimits = [&](int nb) {
+      std::vector<int> l; int K = (int)g.uni(0, 22); long long v = (1LL << K) - 1 + g.uni(0, (1LL << K) / 2); if (g.coin(50)) v = -v;
+      std::vector<int> w; long long tot = 0; for (int i = 0; i < nb; ++i) { int x = g.coin(15) ? (int)g.uni(1, 100000) : (int)g.uni(1, 90); w.push_back(x); tot += x; }
+      if (v + tot > 4194304) v = 4194304 - tot;
+      if (v < -4194304) v = -4194304;
+      l.push_back((int)v); for (int x : w) { v += x; l.push_back((int)v); }
+      return l; };
+    std::vector<int> lx = mkLimits(nbx), ly = mkLimits(nby);
+    std::vector<std::vector<long long>> cap(nbx, std::vector<long long>(nby, 1));
+    HierarchicalDensityPlacement hp(DensityGrid(lx, ly, cap), 0);
+    int refX = (int)g.uni(0, hp.nbLevelX() - 1), refY = (int)g.uni(0, hp.nbLevelY() - 1);
+    for (int i = 0; i < refX; ++i) hp.refineX();
+    for (int i = 0; i < refY; ++i) hp.refineY();
+    int nb = hp.nbBinsX() * hp.nbBinsY();
+    std::vector<std::vector<int>> cells(nb); std::vector<int> demands;
+    for (int b = 0; b < nb; ++b) {
+      if (g.coin(20)) continue;
+      int k = (int)g.uni(1, 6); int style = (int)g.uni(0, 3);
+      for (int i = 0; i < k; ++i) {
+        int d = style == 0 ? (int)g.uni(1, 100) : style == 1 ? (int)g.uni(1, 100000) : style == 2 ? (int)(g.coin(70) ? g.uni(1, 50) : g.uni(1000000, 40000000)) : (int)g.uni(1, 3);
+        cells[b].push_back((int)demands.size()); demands.push_back(d); }
+      if (g.coin(20)) { cells[b].push_back((int)demands.size()); demands.push_back(0); }
+    }
+    int extra = (int)g.uni(0, 2); for (int i = 0; i < extra; ++i) demands.push_back(g.coin(60) ? 0 : (int)g.uni(1, 9));
+    if (demands.empty()) demands.push_back(0);
+    int n = (int)demands.size();
+    std::vector<int> perm(n); for (int i = 0; i < n; ++i) perm[i] = i; for (int i = n; i > 1; --i) std::swap(perm[i - 1], perm[g.uni(0, i - 1)]);
+    std::vector<int> d2(n); for (int i = 0; i < n; ++i) d2[perm[i]] = demands[i];
+    for (auto &c : cells) { for (int &x : c) x = perm[x]; for (size_t i = c.size(); i > 1; --i) std::swap(c[i - 1], c[g.uni(0, i - 1)]); }
+    printf("SF %d %d", n, (int)lx.size()); for (int x : lx) printf(" %d", x); printf(" %d", (int)ly.size()); for (int x : ly) printf(" %d", x);
+    printf(" %d %d %d", refX, refY, nb);
+    for (auto &c : cells) { printf(" %d", (int)c.size()); for (int x : c) printf(" %d", x); }
+    for (int x : d2) printf(" %d", x);
+    bool few = g.coin(30);
+    for (int i = 0; i < 2 * n; ++i) printf(" %lld", few ? g.uni(-2, 2) * 4 : g.uni(-16000000, 16000000));
+    printf("\n");
+  }
+}
+
 // ------------------------------------------------------------------ run
 // bins without cells are omitted: spread_bin / the loop body of spreadCoordX/Y is a no-op for them (grids of 10^5 bins occur)
 static void printBins(const HierarchicalDensityPlacement &hp, bool xdir) {
@@ -191,7 +241,9 @@ static void printBins(const HierarchicalDensityPlacement &hp, bool xdir) {
 }
 static void printFloats(const std::vector<float> &v) { for (float f : v) printf(" %s", fme(f).c_str()); }
 
-static void runSP(IntReader &r) {
+static void printBits(const std::vector<float> &v) { for (float f : v) { uint32_t u; memcpy(&u, &f, 4); printf(" %u", (unsigned)u); } }
+
+static void runSP(IntReader &r, bool bits = false) {
   int n = (int)r.nx(); int nlx = (int)r.nx(); std::vector<int> lx(nlx); for (int &x : lx) x = (int)r.nx();
   int nly = (int)r.nx(); std::vector<int> ly(nly); for (int &x : ly) x = (int)r.nx();
   int refX = (int)r.nx(), refY = (int)r.nx(), nb = (int)r.nx();
@@ -209,6 +261,7 @@ static void runSP(IntReader &r) {
   // model case (two of them: x and y) | results
   printf("SC %d %d %d ", a.minX, a.maxX, n); printBins(hp, true); for (int x : dem) printf(" %d", x); printFloats(tx);
   printf(" | SC %d %d %d ", a.minY, a.maxY, n); printBins(hp, false); for (int x : dem) printf(" %d", x); printFloats(ty);
+  if (bits) { printf(" |"); printBits(cx); printf(" |"); printBits(cy); printf("\n"); return; }   // "SF": raw binary32 bit patterns
   printf(" |"); printFloats(cx); printf(" |"); printFloats(cy); printf("\n");
 }
 
@@ -357,6 +410,7 @@ int main(int argc, char **argv) {
     if (what == "gp") genGP(g, count, argc > 5 ? atoi(argv[5]) : 0);
     else if (what == "grid") genGR(g, count);
     else if (what == "spread") genSP(g, count);
+    else if (what == "spreadf") genSF(g, count);
     return 0;
   }
   vh_install(); if (!getenv("C06_VERBOSE")) vh_silence();   // C06_VERBOSE=1: keep the library's progress output (debugging)
@@ -369,6 +423,7 @@ int main(int argc, char **argv) {
       if (line.compare(0, 3, "GP ") == 0) runGP(r);
       else if (line.compare(0, 3, "GR ") == 0) runGR(r);
       else if (line.compare(0, 3, "SP ") == 0) runSP(r);
+      else if (line.compare(0, 3, "SF ") == 0) runSP(r, true);
       else printf("BADTAG\n");
     } catch (std::exception &ex) { printf(" | THROW-OUTER %s\n", ex.what()); }
     fflush(stdout);
